@@ -663,7 +663,7 @@ class CompMixin:
         st.assume(z3.ForAll([j], z3.Implies(z3.And(0 <= j, j < cnt),
                                             z3.And(0 <= m(j), m(j) < n, p_m, minv(m(j)) == j)), patterns=[m(j)]))
         j2 = fresh("lc_k", I)
-        st.assume(z3.ForAll([j, j2], z3.Implies(z3.And(0 <= j, j < j2, j2 < cnt), m(j) < m(j2)), patterns=[m(j), m(j2)]))
+        st.assume(z3.ForAll([j, j2], z3.Implies(z3.And(0 <= j, j < j2, j2 < cnt), m(j) < m(j2)), patterns=[z3.MultiPattern(m(j), m(j2))]))
         st.assume(z3.ForAll([i], z3.Implies(z3.And(0 <= i, i < n, p_i),
                                             z3.And(0 <= minv(i), minv(i) < cnt, m(minv(i)) == i)), patterns=[minv(i)]))
         items = self.def_array(st, j, to_sort_term(v_m, v_m.ty))
